@@ -196,6 +196,7 @@ def kx(rep, prog):
     if not cl or not sv:
         rep.violation("ANCHOR", "crypto_kx session key functions", "public functions not found")
         return
+    kx_wrappers(rep, prog, cl[0], sv[0])
     sm = prog.by_path.get("classic::crypto_core::crypto_scalarmult", [None])[0]
     # both sides are analysed with their private helpers (shared derivation, zero test, ...) folded in
     # public signature (positional): (rx, tx, own_pk, own_sk, peer_pk)
@@ -261,6 +262,58 @@ def kx(rep, prog):
         rep.ob("MIRROR", "%s|rx/tx halves" % side, got == want_copy,
                "(output parameter, half of the hash) pairs %s; expected %s (client: rx=first, tx=second; server mirrored)" % (sorted(got, key=repr), sorted(want_copy)),
                loc=fins[0].loc())
+
+
+def kx_wrappers(rep, prog, cl, sv):
+    """KX-WRAP: the object API reaches the classic session-key function of its *own* side.  Every public function
+    outside classic::crypto_kx whose public name says `client` (or `server`) and from which a classic session-key
+    function is reachable through crate-local calls reaches the one of that side: a server
+    wrapper that forwards to the client constructor returns keys of the right length that mirror nothing."""
+    side_of = {cl.key: "client", sv.key: "server"}
+    prog.build_callgraph()
+
+    def mentioned(o, out):
+        # function items used as values anywhere in a body (`derive_with(crypto_kx_client_session_keys, ..)`:
+        # the item is first coerced to a function pointer, so it is not a direct call operand)
+        if isinstance(o, dict):
+            if o.get("fn_key") in prog.by_key:
+                out.add(o["fn_key"])
+            for v in o.values():
+                mentioned(v, out)
+        elif isinstance(o, list):
+            for v in o:
+                mentioned(v, out)
+        return out
+
+    def reach(f):
+        # the crate's call graph (resolved calls, closures created in a function) plus function items used as values
+        seen, todo = {f.key}, [f]
+        while todo:
+            g = todo.pop()
+            if g.key in side_of:
+                continue
+            for k in set(prog._callees.get(g.key, ())) | mentioned(g.blocks, set()):
+                if k not in seen:
+                    seen.add(k)
+                    todo.append(prog.by_key[k])
+        return {side_of[k] for k in seen if k in side_of}
+    n = 0
+    for f in sorted(prog.fns, key=lambda f: f.path):
+        if f.vis != "pub" or f.kind == "closure" or f.key in side_of or f.path.startswith("classic::crypto_kx::"):
+            continue
+        name = f.path.split("::")[-1].lower()
+        want = [w for w in ("client", "server") if w in name]
+        if len(want) != 1:
+            continue
+        got = reach(f)
+        if not got:
+            continue
+        n += 1
+        # (a shared helper that picks the side from a flag makes both reachable: call-graph reachability cannot
+        # tell which one runs, so only "the own side is not reachable at all" is reported)
+        rep.ob("KX-WRAP", "%s|reaches the %s session-key function" % (f.path, want[0]), want[0] in got,
+               "reaches the session-key function(s) of: %s" % ", ".join(sorted(got)), loc=f.loc())
+    rep.floor("public client/server session wrappers", n, 4)
 
 
 def _is_zero_array(f, a):
